@@ -55,7 +55,7 @@ def _enum(tier, shard, nshards):
 
 
 PHASES = [
-    HypPhase("dyadic", _case, dict(quick=1500, thorough=20000)),
+    HypPhase("dyadic", _case, dict(quick=2500, thorough=20000)),
     EnumPhase("grid6", _enum,
               lambda tier: "all ordered pairs of subsets of {0..6} on [0,6], settings cycling "
                            "over MRTS in {omitted,2,'auto'} x RI x max_tau in {None,1}"),
